@@ -107,7 +107,7 @@ PROP = {
         {"name": "c17.years"},                             # every year -2..10000
         {"name": "c17.months", "args_thorough": ["all"]},  # lunar months of the selected years, every sexagenary month of years 0..9999
     ],
-    "ops": c17_ops,
+    "ops": with_extra(c17_ops, objhist=(0, 1)),
     "extra_checks": [c17_turning],
     "exhaustive": False,
     "rule": "c17.days: every civil date of the selected years 1..9998 (quick ~470k, thorough all 3,651,696): officer, spirit, mansion, luminary, weekday, "
